@@ -352,7 +352,15 @@ class Interp(object):
                     if isinstance(v, Cell):
                         v = v.v
                     if isinstance(v, list):
-                        v = Arr(list(v), d['name'])
+                        v = list(v)
+                        t0 = t.replace('const ', '').strip()
+                        if t0.endswith(']') and '[' in t0:
+                            try:
+                                cnt = int(t0[t0.rindex('[') + 1:-1])
+                                v += [AV.const(0)] * (cnt - len(v))      # remaining elements are value-initialised
+                            except ValueError:
+                                pass
+                        v = Arr(v, d['name'])
                     env[d['ref']] = Cell(self.wrap(v, t))
         elif k == 'IfStmt':
             c = self.truth(self.eval(fn, n['cond'], env))
@@ -571,6 +579,8 @@ class Interp(object):
             if p.off < 0 or p.off >= len(p.arr.elems):
                 raise OutOfBounds('write of %s[%d] (size %d)' % (p.arr.name, p.off, len(p.arr.elems)))
             p.arr.elems[p.off] = v
+            if p.off == 0 and getattr(p.arr, 'cell', None) is not None:
+                p.arr.cell.v = v
             return
         if lv[0] == 'elems':
             self.split_on(lv[2].deps)
@@ -692,6 +702,7 @@ class Interp(object):
                     return PV(lv.v, 0)
                 if isinstance(lv, Cell):
                     a = Arr([lv.v], 'addr')
+                    a.cell = lv          # writes through the pointer reach the variable
                     return PV(a, 0)
                 raise Unsupported('address-of at %s' % fn.loc(i))
             v = self.rvalue(fn, n['ch'][0], env)
@@ -823,6 +834,9 @@ class Interp(object):
                     return o
             if op == '=':
                 lv = self.lval(fn, objn, env)
+                if isinstance(lv, tuple) and lv[0] == 'elem' and isinstance(lv[1], Out):
+                    self.emit(lv[1], self.rvalue(fn, n['ch'][2], env))
+                    return lv
                 cur = self.load(lv)
                 if isinstance(cur, Out) or cur is None:
                     # output-iterator assignment *out = c  /  string assignment
